@@ -60,7 +60,8 @@ PROPS["C04"] = dict(
           "panic fails the response as a whole with a well-formed error body), followed by the benign request again (the process keeps "
           "serving); for worker_limit 0/1/2; a process crash is a violation (journalled case)."
           " An operation that has not answered 20 s after a fault was injected is a violation of its own (stable goroutine witness required), and failure storms (many faults in one operation, the same failing value reached through several aliases) are drawn; a Go type used for a user scalar fails on demand in marshal and unmarshal, over POST, GET and websocket."
-          " A sixth of the cases keep gqlgen's own recover hook (every panic is then 'internal system error' at the path of its own position).",
+          " A sixth of the cases keep gqlgen's own recover hook (every panic is then 'internal system error' at the path of its own position)."
+          " A user marshaler may also write invalid JSON (encoding/json then refuses the response in the transport's write step): over POST, GET and SSE the handler must return, with one recover and errors only.",
     note="single faults are exhaustive per generated operation, operations are sampled; reference executor and gqlparser trusted; "
          "subscription events are covered as far as C11 goes (resolver error/panic per operation)",
     technique="fault injection enumerated over generated operations (rapid) with a reference-executor oracle",
@@ -222,7 +223,8 @@ PROPS["C09"] = dict(
           "Half of the servers cache parsed documents (lru), and a request may be repeated up to three times in a row: every answer has to satisfy the contract."
           " Requests may name their document by persisted-query hash (registered earlier in the history or not), with a query cache, and may be repeated."
           " A GET request may also carry a body of another transport's content type that names a mutation; it is answered from its URL alone."
-          " The JSON request object may be posted through the UrlEncodedForm transport (operationName and variables as over POST).",
+          " The JSON request object may be posted through the UrlEncodedForm transport (operationName and variables as over POST)."
+          " An upload request larger than MaxUploadSize is refused with the transport's content type and configured headers and runs nothing.",
     note="application/graphql and urlencoded transports do not negotiate (configured header or application/json), as their code documents",
     technique="model-based property testing (rapid) against an explicit contract model; resolver log as execution witness",
     rule="evaluation = one HTTP request; non-trivial = multi-operation document, non-default Accept, or GET; distinct by the full request",
@@ -242,7 +244,8 @@ PROPS["C10"] = dict(
           "and well-formed uploads deliver exact bytes/filename/content type to every mapped path through independently readable readers; structural mutation of a valid map path of the very request (index equal to the list length, shorter lists, wrong kinds, extra / missing segments); and websocket sessions fed frames of any type (text, binary, ping, pong, close) and payload (protocol messages with members of the wrong JSON type, null, truncated, nested thousands deep, random bytes, one byte flipped) under both subprotocols, before and after the handshake: the recover hook never runs, the process lives, every server frame is a JSON message object and a fresh session is acknowledged afterwards."
           " Invalid documents are also sent twice to a server with a query cache (the second answer must equal the first), and websocket frames are mutated the same way."
           " The streaming transports are registered before POST (as documented), so raw bodies sent with their Accept headers reach them."
-          " Bodies that declare a required variable and do not provide it are sent after a well-formed request with variables: errors only, nothing runs.",
+          " Bodies that declare a required variable and do not provide it are sent after a well-formed request with variables: errors only, nothing runs."
+          " The websocket init function reads the payload through gqlgen's accessors (Authorization, GetString), and init payloads carry values that are not strings.",
     note="websocket frames are covered by C11's state machine; native byte-level fuzz targets are not part of the quick tier",
     technique="grammar-based and mutation-based property testing (rapid) with a crash/recover-hook/round-trip oracle",
     rule="evaluation = one request; non-trivial = a request with a structural defect that reaches the transport's decoding stage, or a "
@@ -288,7 +291,8 @@ PROPS["C07"] = dict(
           "A request with a wrong persisted-query hash claims the hash of another text of the pool, so that a later hash-only request for that text shows whether the rejected request left memory. "
           "Websocket: up to six operations (queries, mutations, subscriptions, invalid ones) are started back to back on one connection of a long-lived server; each must receive, under its own id, exactly the frames a fresh server sends when it runs that operation alone on a connection of its own, and no frame may carry an id nobody started."
           " Transports may be configured with ResponseHeaders (each response must carry exactly the configured set, whatever ran before it), and a websocket session multiplexes operations of the same pool."
-          " The pool holds pairs of texts that differ only in white space that matters (inside a string value, a block string, at the end of a comment); a text is often requested right after its nearest neighbour.",
+          " The pool holds pairs of texts that differ only in white space that matters (inside a string value, a block string, at the end of a comment); a text is often requested right after its nearest neighbour."
+          " A third of the cases give every server a complexity limit whose cost depends on the request's variables, with requests for the same text on either side of the limit.",
     note="whether sync.Pool hands the same object to the next request is up to the runtime; websocket sessions are covered by C11",
     technique="differential / metamorphic history testing (rapid) against a fresh-server oracle + Go race detector",
     rule="evaluation = one request compared with a fresh server; non-trivial = a request whose predecessor on the same transport and text "
@@ -424,7 +428,8 @@ PROPS["C19"] = dict(
           "A third of the schemas also have Mutation and Subscription roots (channel-valued resolvers), and resolver.omit_template_comment is drawn."
           " Doc comments above resolver methods may span several paragraphs; Mutation and Subscription roots, dot imports and omit_template_comment are drawn as well."
           " A quarter of the projects keep their two schema files under one base name in different directories, so the follow-schema layout keeps all resolvers in one file."
-          " User imports include an alias that is the tail of its import path but not the package's name, and added fields may have a scalar type bound to the user's util package (whose name a user alias of another import has taken).",
+          " User imports include an alias that is the tail of its import path but not the package's name, and added fields may have a scalar type bound to the user's util package (whose name a user alias of another import has taken)."
+          " User imports include a standard-library package whose name is not the last element of its path (math/rand/v2).",
     note="bodies are never empty (gqlgen documents an empty body as 'not implemented'); doc comments are plain // comments",
     technique="model-based state-machine property testing (rapid) with a token-stream round-trip oracle",
     rule="evaluation = one regeneration; a history is non-trivial if a regeneration follows both an edit and an evolution and some body has "
